@@ -18,6 +18,9 @@ from checks import c01_deep
 
 KINDS = ["set", "mset", "map", "mmap"]
 SLOT_PAIRS = [(4, 4), (4, 5), (5, 4), (5, 5), (6, 6), (7, 7), (8, 8), (16, 16), (4, 7), (7, 4), (5, 16), (16, 5)]
+# instantiated as well, used by the bulk_load size cases only: (16, 4) and the capacities of
+# btree_default_traits for 4-byte keys, (64, 21)
+BULK_PAIRS = [(5, 4), (7, 4), (16, 5), (16, 4), (4, 7), (5, 16), (4, 5)]
 STD_FLAGS = ["-std=gnu++17", "-O0", "-g1", "-fsanitize=address,undefined",
              "-fno-sanitize-recover=all", "-fno-omit-frame-pointer"]
 
@@ -311,6 +314,88 @@ def directed_cases():
     return cs
 
 
+def bulk_sizes(leaf, inner, cap):
+    """sizes at, just below and just above the places where the level structure of bulk_load changes: full
+    trees leaf*(inner+1)^j, minimally filled ones, the same with the leaf fan-out mistaken for the inner one
+    and vice versa, and a few sizes well inside three and four levels"""
+    lm, im = leaf // 2, inner // 2
+    s = set()
+    for j in (1, 2, 3):
+        for base in (leaf * (inner + 1) ** j, leaf * (leaf + 1) ** j, inner * (inner + 1) ** j,
+                     lm * (im + 1) ** j, lm * (inner + 1) ** j, leaf * (im + 1) ** j,
+                     (leaf * (inner + 1) ** j * 3) // 2, leaf * (inner + 1) ** j + leaf * (inner + 1) ** (j - 1)):
+            for d in (-1, 0, 1, leaf, leaf + 1):
+                if 0 < base + d <= cap:
+                    s.add(base + d)
+    return sorted(s)
+
+
+def bulk_size_cases(tier, seed):
+    """bulk_load of the asymmetric capacity pairs up to four levels (and the default-traits capacities beyond
+    leaf*(inner+1)^2 items in the thorough tier), followed by observations and a little surgery"""
+    cs = []
+    n = seed
+    pairs = [(p, 4000 if tier == "quick" else 30000) for p in BULK_PAIRS]
+    if tier != "quick":
+        pairs.append(((64, 21), 33000))
+    for (leaf, inner), cap in pairs:
+        sizes = bulk_sizes(leaf, inner, cap)
+        if tier == "quick" and len(sizes) > 14:
+            # the three-inner-level sizes always, a rotating sample of the rest
+            big = [x for x in sizes if x > leaf * (inner + 1) ** 2]
+            rest = [x for x in sizes if x <= leaf * (inner + 1) ** 2]
+            sizes = sorted(set(big[:8] + big[-2:] + rest[seed % 3::3]))
+        if (leaf, inner) == (64, 21):
+            sizes = [64 * 22 * 22 + 1, 31000, 32771]
+        for sz in sizes:
+            kind = KINDS[n % 4]
+            mode = n % 2
+            is_map, dup = kind in ("map", "mmap"), kind in ("mset", "mmap")
+            keys = [(i // 2 if dup and n % 3 == 0 else i) for i in range(sz)]
+            if mode == 1:
+                keys = [sz - k for k in keys]
+            ents = " ".join(fmt_ent(is_map, k, k % 5) for k in keys)
+            probe = sorted({keys[0], keys[-1], keys[sz // 2], keys[sz // 3], keys[(2 * sz) // 3]})
+            lines = [f"case bulk-{leaf}-{inner}-{sz}", f"cfg {kind} {leaf} {inner} {n % 2} {mode}", "bulk 0 " + ents, "size 0"]
+            for k in probe:
+                lines += [f"lb 0 {k}", f"ub 0 {k}", f"find 0 {k}"]
+            lines += [f"iter 0 {n % 16}", f"er1 0 {keys[sz // 2]}", f"eri 0 {sz // 3}", f"ins 0 {keys[-1] + (1 if mode == 0 else 0)} 1",
+                      "copy 1 0", f"er1 1 {keys[0]}", "cmp 0 1", "clear 0", "size 0"]
+            cs.append(lines)
+            n += 1
+    return cs
+
+
+def allocator_cases():
+    """the two registers are constructed with different allocator instances and, here, different comparators:
+    copy construction, assignment with an empty / small / multi-level tree on either side, both swaps, range
+    construction, clear and destruction in every order, with growth and shrinkage in between"""
+    cs = []
+    n = 0
+    fills = (0, 3, 40)
+    for (leaf, inner) in ((4, 4), (5, 4), (4, 7)):
+        for kind in KINDS:
+            is_map = kind in ("map", "mmap")
+            for f0 in fills:
+                for f1 in fills:
+                    m0, m1 = n % 3, (n + 1) % 3
+                    lines = [f"case alloc-{kind}-{leaf}-{inner}-{f0}-{f1}", f"cfg {kind} {leaf} {inner} {n % 2} {m0} {m1}"]
+                    for r, f in ((0, f0), (1, f1)):
+                        for i in range(f):
+                            lines.append(f"ins {r} {(i * 7 + r) % 53} {i}")
+                    two = [("assign 0 1", "assign 1 0"), ("swap 0 1", "assign 0 1"), ("tswap 0 1", "assign 1 0"),
+                           ("copy 0 1", "swap 0 1"), ("assign 1 0", "tswap 0 1"), ("swap 1 0", "copy 1 0")][n % 6]
+                    lines += [two[0], "ins 0 60 1", "ins 1 2 1", "ins 0 5 2", "iter 0 0", "iter 1 0", "cmp 0 1",
+                              "er1 0 60", two[1], "ins 1 61 1", "ins 0 3 1", "iter 0 1", "iter 1 1",
+                              "rctor 0 " + " ".join(fmt_ent(is_map, k, 1) for k in (9, 1, 5, 7, 3, 11, 13, 2, 4, 6, 8, 10, 12)),
+                              "assign 1 0", "ins 1 14 1", "swap 0 1", "er1 0 14", "clear 1", "assign 0 1", "ins 0 1 1",
+                              "rctor 1 " + " ".join(fmt_ent(is_map, k, 2) for k in range(20, 0, -1)),
+                              "assign 0 0", "swap 1 1", "tswap 0 0", "assign 0 1", "clear 0", "clear 1", "size 0"]
+                    cs.append(lines)
+                    n += 1
+    return cs
+
+
 AFIELD = re.compile(r" ; a=(\d+),(\d+),(\d+),(\d+) ; T0 s=\d+,\d+,(\d+) .* ; T1 s=\d+,\d+,(\d+) ")
 
 
@@ -390,6 +475,8 @@ class BTreeSpec(flow.Spec):
         if round_no == 0:
             cs += directed_cases()
             cs += self.deep_cases(ctx, seed, tier)
+            cs += bulk_size_cases(tier, seed)
+            cs += allocator_cases()
         n = 260 if tier == "quick" else 8000
         k = 0
         # every kind x slot pair x search x order at least once per run, then random configurations
